@@ -32,6 +32,7 @@ ADD = "ant_node_manager::add_services::add_node::{closure#0}"
 UPCMD = "ant_node_manager::cmd::node::upgrade::{closure#0}"
 OPT = "<antnode::Opt as clap_builder::derive::Args>::augment_args"
 PARGS = "<ant_bootstrap::initial_peers::PeersArgs as clap_builder::derive::Args>::augment_args"
+PARGS_ADT = "ant_bootstrap::initial_peers::PeersArgs"
 SUB = "<antnode::subcommands::EvmNetworkCommand as clap_builder::derive::Subcommand>::augment_subcommands"
 # install-time field → persisted field
 FIELD_MAP = {"name": "service_name", "service_user": "user", "autostart": "auto_restart", "env_variables": None}
@@ -43,6 +44,20 @@ def mapf(f):
     parts = f.split(".")
     head = FIELD_MAP.get(parts[0], parts[0])
     return ".".join(["service_data", head] + parts[1:]) if head else None
+
+
+def _behind_unset(body, bb, field):
+    """is block `bb` of `body` reachable only through a branch on which `<x>.field` is false / empty / None?"""
+    from rules import FieldBoolGuard, FieldOptGuard
+    prep(body)
+    g = cfg_of(body)
+    acc = set()
+    acc |= FieldBoolGuard(field, want=False).edges(body)[1]
+    acc |= FieldOptGuard(field, ("None",)).edges(body)[1]
+    reads = Taint(body).closure({d for d, r, p in field_reads(body, field)})
+    acc |= CallGuard(["alloc::vec::Vec::is_empty", "core::option::Option::is_none"], ("true",), "unset",
+                     arg_pred=lambda b_, blk, t: op_local(t["args"][0]) in reads).edges(body)[1]
+    return bool(acc) and bb not in g.reach((0,), cut=acc)
 
 
 def run(R):
@@ -211,6 +226,65 @@ def run(R):
                         okr = False
                         R.viol("C20.clap", "arity:%s" % f, "%s is written %s a value but antnode registers it as %s" % (f, "with" if x["takes_value"] else "without", reg["action"]), body, x["line"])
         R.inst("C20.clap", "K7 table agreement", "every emitted flag is a registered long option of antnode with matching arity", n, okr, {"top_level": sorted(top), "evm_custom": sorted(sub)})
+        # (3b) relations between options (conflicts_with …): a pair the reader refuses must never be written together
+        id2long = {v["id"]: k for k, v in top.items()}
+        emitted = {}
+        for nm, m, body in (("install", mi, bi), ("upgrade", mu, bu), ("peers", mp, bp)):
+            for f, xs in m["flags"].items():
+                for x in xs:
+                    emitted.setdefault(f[2:], []).append((m, body, x))
+        pa_fields = {v["id"] for v in A.clap_args(bpa).values()}
+        nrel, okrel = 0, True
+        for a_long, reg in sorted(top.items()):
+            for kind, tgt in reg.get("relations", []):
+                nrel += 1
+                b_long = id2long.get(tgt, tgt)
+                if not kind.startswith(("conflicts_with", "exclusive")):
+                    if a_long in emitted:
+                        okrel = False
+                        R.viol("C20.relations", "unmodelled-relation:%s!%s" % (a_long, kind), "antnode registers `%s(%s)` on --%s, which the manager writes; this kind of relation is not modelled" % (kind, tgt, a_long), bpa, bpa.lines[0])
+                    continue
+                if a_long not in emitted or b_long not in emitted:
+                    continue
+                # (i) never both on one path of a writer
+                together = None
+                for (m1, body1, x1) in emitted[a_long]:
+                    for (m2, body2, x2) in emitted[b_long]:
+                        if body1 is body2:
+                            g1 = cfg_of(body1)
+                            if x2["bb"] in g1.reach((x1["bb"],)) or x1["bb"] in g1.reach((x2["bb"],)):
+                                together = (body1, x1)
+                if together is None:
+                    continue
+                # (ii) or both values come unchanged from antctl's own parse of the same clap definition (which refuses the pair)
+                fa, fb = reg["id"], top[b_long]["id"]
+                post = {}
+                for fld in (fa, fb):
+                    if fld in pa_fields:
+                        other = fb if fld == fa else fa
+                        ws = []
+                        for w, sites in R.writers_of(PARGS_ADT, fld).items():
+                            if "FromArgMatches" in w or "Deserialize" in w or "Default" in w:
+                                continue
+                            # a write after parsing is fine where the conflicting option is known to be unset
+                            for wb, msite in sites:
+                                if not _behind_unset(wb, msite["bb"], other):
+                                    ws.append(w)
+                                    break
+                        if ws:
+                            post[fld] = ws
+                    else:
+                        post[fld] = ["(not a PeersArgs field: not validated by antctl's parse)"]
+                if post:
+                    okrel = False
+                    fld, ws = sorted(post.items())[0]
+                    R.viol("C20.relations", "conflict-writable:%s+%s" % tuple(sorted((a_long, b_long))),
+                           "antnode refuses --%s together with --%s, yet %s can write both: `%s` is set after antctl's own argument parsing in %s" % (
+                               a_long, b_long, together[0].npath.split("::")[-1], fld, ", ".join(ws)), together[0], together[1]["line"])
+        R.inst("C20.relations", "K7 table agreement", "no pair of options that antnode declares conflicting can be written together", nrel, okrel and nrel >= 3,
+               {"relations": [(k, r) for k, v in sorted(top.items()) for r in v.get("relations", [])]})
+        if nrel < 3:
+            R.viol("C20.relations", "instance-floor", "only %d clap relations found in antnode's options (floor 3)" % nrel)
         # subcommand names
         names = sorted({k[1].strip('"') for c in bs.calls if (c["ncallee"] or "").endswith("Command::new") for k in c["consts"]})
         disp = R.body("C20.names", "<evmlib::Network as core::fmt::Display>::fmt")
